@@ -290,6 +290,9 @@ class Input(ContextManager["Input"]):
             time_until_check = timeout
 
         # try to find an already pressed key from prev input
+        if 0 < len(self.unprocessed_bytes) < events.MAX_KEYPRESS_SIZE:
+            # what is left may be the start of a keypress cut by the read size
+            self._nonblocking_read()
         e = find_key()
         if e is not None:
             return e
